@@ -257,7 +257,7 @@ type driverEntry struct {
 	run  func(ctx context.Context, coll lungo.ICollection, stored bson.D, in []interface{})
 }
 
-var panicWindow = []int64{0, 1, 2, -1, -7, math.MinInt64, math.MaxInt64, 1 << 31, 1<<63 - 2}
+var panicWindow = []int64{0, 1, 2, -1, -7, math.MinInt64, math.MaxInt64, 1<<62 + 1, 1<<63 - 2}
 
 var driverEntries = []driverEntry{
 	{"Collection.UpdateOne", func(ctx context.Context, coll lungo.ICollection, st bson.D, in []interface{}) {
@@ -516,7 +516,7 @@ func runPanicScript(c *sx) string {
 // ---------------------------------------------------------------------------
 
 func oraclePanic(r *rng, n int, st *oracleStats) []oracleFailure {
-	st.Rule = "malformed stream: documents / filters / updates / projections / sorts / array filters whose keys are drawn from all operator names (query, update, projection, schema keywords, unknown), odd paths (empty, leading/trailing/double dots, numeric, positional, indexes beyond the back-fill bound and beyond int64) and plain keys, with arbitrary supported BSON values as arguments; each of 24 bsonkit/mongokit entry points is called under recover() and a 10 s watchdog with every flag combination; every fourth iteration 12 driver calls run on a fresh collection holding a document with a document-/binary-/array-/scalar-valued _id, with skip and limit from {0, 1, 2, -1, -7, MinInt64, MaxInt64, 2^31, 2^63-2}, each followed by a probe write; plus the targeted scripts (negative skip, huge limit, back-fill bound at 1499999/1500000/1500001/2^31/2^62 relative to the array length, $unset/$rename of an empty-document _id); non-trivial = the input contains at least one operator key"
+	st.Rule = "malformed stream: documents / filters / updates / projections / sorts / array filters whose keys are drawn from all operator names (query, update, projection, schema keywords, unknown), odd paths (empty, leading/trailing/double dots, numeric, positional, indexes beyond the back-fill bound and beyond int64) and plain keys, with arbitrary supported BSON values as arguments; each of 24 bsonkit/mongokit entry points is called under recover() and a 10 s watchdog with every flag combination; every fourth iteration 12 driver calls run on a fresh collection holding a document with a document-/binary-/array-/scalar-valued _id, with skip and limit from {0, 1, 2, -1, -7, MinInt64, MaxInt64, 2^62+1, 2^63-2}, each followed by a probe write; plus the targeted scripts (negative skip, huge limit, back-fill bound at 1499999/1500000/1500001/2^31/2^62 relative to the array length, $unset/$rename of an empty-document _id); non-trivial = the input contains at least one operator key"
 	var fails []oracleFailure
 	seenSig := map[string]bool{}
 	add := func(sig, what, script string) {
